@@ -128,6 +128,11 @@ func runC01(cfg Config, r *Result) {
 	for _, src := range c01OperatorSweep(cfg) {
 		semCase(model, r, src, SemOpts{StopAt: -1, YieldBudget: 200000}, true, "sweep:")
 	}
+	// the array operators on composite and any-held operands followed by updates through one alias (the alias programs of
+	// C09): `*` deep-copies per repetition, `+` and slices copy the spine - the VALUE of the operator expression
+	for i := 0; i < cfg.N(150, 3000); i++ {
+		semCase(model, r, c09Program(cfg.Rng), SemOpts{StopAt: -1, YieldBudget: 50000}, true, "alias:")
+	}
 	// precedence / associativity / layout: derivations of the layered grammar as oracle (harness/c01prec.go)
 	rule := r.Rule
 	runC01prec(cfg, r)
